@@ -674,6 +674,8 @@ def _mk_where(c, x, y):
         y = y.kids[2]
     if x is y or x == y:
         return P_atom(x) if isinstance(x, Node) else P_const(x)
+    if c is EYE:
+        return P_atom(A("fill_diagonal", y, x))  # where(eye, c, M): M with its diagonal set to c
     return P_atom(A("where3", c, x, y))
 
 
@@ -837,6 +839,9 @@ class Normalizer:
                 full = all(isinstance(z, Term) and z.op == "slice" and all(isinstance(q, Term) and q.op == "const" and q.args[0] is None for q in z.args) for z in idx.args[1:])
                 if full:
                     idx = idx.args[0]
+            # rows after columns = columns after rows: A[:, c][r] = A[r][:, c] for a row selection r (index vector / mask)
+            if isinstance(base, Term) and base.op == "getitem" and isinstance(base.args[1], Term) and base.args[1].op == "tuple" and len(base.args[1].args) == 2 and _term_full_slice(base.args[1].args[0]) and isinstance(idx, Term) and idx.op in ("unique", "nonzero1", "argsort", "setdiff1d", "sort", "lt", "le", "gt", "ge", "invert", "bitand", "bitor"):
+                return self.nf(Term("getitem", Term("getitem", base.args[0], idx), base.args[1]))
             # arange(n)[~isin(arange(n), b)]: the values of the range not contained in b, setdiff1d(arange(n), b)
             if isinstance(base, Term) and base.op == "arange" and len(base.args) == 1 and isinstance(idx, Term) and idx.op == "invert" and isinstance(idx.args[0], Term) and idx.args[0].op == "isin" and idx.args[0].args[0] == base:
                 return self.nf(Term("setdiff1d", base, idx.args[0].args[1]))
